@@ -6,6 +6,7 @@ import (
 	"fmt"
 	"golang.org/x/tools/go/ssa"
 	"os"
+	"strings"
 	"path/filepath"
 	"runtime/debug"
 	"sort"
@@ -220,6 +221,11 @@ func runCheck(id, tier string) (code int) {
 	plats := []plat{{"linux", "amd64"}}
 	if tier == "thorough" {
 		plats = append(plats, plat{"windows", "amd64"}, plat{"linux", "386"})
+	}
+	if v := os.Getenv("VT_PLAT"); v != "" { // debugging aid: one platform only, e.g. VT_PLAT=windows/amd64
+		if i := strings.Index(v, "/"); i > 0 {
+			plats = []plat{{v[:i], v[i+1:]}}
+		}
 	}
 	var rep *Report
 	for i, pl := range plats {
